@@ -512,7 +512,15 @@ class Env:
         if len(self.samples) < limit:
             self.samples.append(x)
 
+    # keys the evidence schema types (extra coverage facts must not collide with them)
+    _TYPED = {"evaluations": int, "distinct_nontrivial": int, "rule": str, "samples": list, "states": int, "transitions": int,
+              "traces_validated_against_impl": int, "obligations": int, "discharged": int, "checker_cmd": str,
+              "trusted_base": list, "programs": int, "disagreements_checked": int, "explanation": str, "exhaustive": bool}
+
     def note(self, key, value):
+        t = self._TYPED.get(key)
+        if t is not None and (not isinstance(value, t) or (t is int and isinstance(value, bool))):
+            key = key + "_detail"
         self.coverage_extra[key] = value
 
     def assume(self, text):
